@@ -69,6 +69,7 @@ func runC06(c *Ctx, r *Report) {
 	importFoundation(c, r, "C06", "callbacks")
 	importFoundation(c, r, "C06", "read-loop")
 	importFoundation(c, r, "C06", "chunk-decoder")
+	importFoundation(c, r, "C06", "open-cleanup")
 	r.Rule("C06/close-callers", "Channel.Close is called by Open (failure path) and Close methods only: no operation closes the channel behind the caller's back", 4)
 	checkCloseCallers(c, r, "C06/close-callers")
 	r.Rule("C06/pipe-writer-closed", "no transport reads device output from an in-process pipe whose write end nobody closes (the end of the stream must reach the reader)", 1)
